@@ -357,8 +357,13 @@ static void *trampoline(void *arg)
 	return NULL;
 }
 
+int vs_fail_create_at;
+static int n_creates;
+
 int vs_thread_create(pthread_t *t, void *(*fn)(void *), void *arg)
 {
+	if (vs_fail_create_at && ++n_creates == vs_fail_create_at)
+		return 11;	/* EAGAIN */
 	if (nth >= VS_MAX_THREADS) vs_fail(VS_DIVERGENCE, "too many threads");
 	int id = nth;
 	th[id].st = T_RUN; th[id].fn = fn; th[id].arg = arg; th[id].pc = 0;
@@ -370,6 +375,12 @@ int vs_thread_create(pthread_t *t, void *(*fn)(void *), void *arg)
 	}
 	pthread_detach(th[id].real);
 	*t = (pthread_t)(uintptr_t)(id + 1000);
+	if (vs_fail_create_at) {
+		/* creation-failure configurations: the new thread may run before its creator goes on */
+		int self = self_id;
+		th[self].st = T_RUN; th[self].pc = 900 + id;
+		schedule();
+	}
 	return 0;
 }
 
